@@ -173,9 +173,9 @@ func mkTok(t *rapid.T, kind string) ref.Tok {
 	return ref.Tok{Kind: kind, Src: src, Lexeme: lex}
 }
 
-var strays = []string{"#", "@lef", "@lefty", "$", "$a", `"abc`, `""`, "'x'", "/abc", "%", "\\", "é", "\x01", "^", "9a", "/* open", "/*/", "~", "\xff", "\xc3(", "\xfe\xfe", "\xe4\xb8"}
+var strays = []string{"#", "@lef", "@lefty", "$", "$a", `"abc`, `""`, "'x'", "/abc", "%", "\\", "é", "\x01", "^", "9a", "/* open", "/*/", "~", "$1", "$_", "$9A", "$_ID", "\xff", "\xc3(", "\xfe\xfe", "\xe4\xb8"}
 
-var tails = []string{"", ";", " ; x = y ;", " ) ) ] }}", " @left \"a\" TK = /x/ start = ;", " # $ %", " /* open", "\n\n grammar g ; start = \"a\" ;\n"}
+var tails = []string{"", ";", " \x00 ", " // c\n\x00",  " ; x = y ;", " ) ) ] }}", " @left \"a\" TK = /x/ start = ;", " # $ %", " /* open", "\n\n grammar g ; start = \"a\" ;\n"}
 
 func TestErrorsAtFirstOffendingToken(t *testing.T) {
 	rec.Rule(rule + ruleMore)
